@@ -280,6 +280,21 @@ def ua_wait(ctx):
                 out.append(bad(R, key, 'the completion test is not re-evaluated in a loop: a spurious wake-up lets the function return while the job is still queued', fn=name))
         else:
             out.append(bad(R, key, 'a path from %s reaches the return without passing the "job done" edge: the queue keeps a dangling pointer to the closure' % ctor, fn=name))
+        # ... and the frame is not left by a panic of the function's own either: while the job is queued and not known to be done, the
+        # body has no panic!/assert!/unreachable! of its own (a caller that merely waits holds no ActiveQueue guard: the queue is not marked
+        # Panicked by its unwinding, and a pool thread later runs the job against the unwound frame)
+        if exit_blocks:
+            PANICS = ('core::panicking::panic_fmt', 'core::panicking::panic', 'std::rt::begin_panic', 'std::panicking::begin_panic', 'core::panicking::panic_display',
+                      'core::panicking::assert_failed', 'core::panicking::panic_explicit', 'core::panicking::unreachable_display', 'core::panicking::panic_nounwind')
+            window = fn.reachable_blocks(cs[0][1]['target'], avoid=exit_blocks) if cs[0][1]['target'] is not None else set()
+            own = [bb for bb, t in fn.calls() if bb in window and not fn.blocks[bb]['cleanup'] and (t['func'].get('fn') or '').startswith(PANICS)
+                   and 'debug_assert' not in (t['sp'].get('mac') or '')]
+            key2 = key + '|no-panic-while-queued'
+            if own:
+                out.append(bad(R, key2, 'the function can panic on its own account while its lifetime-erased job is still queued (and without having claimed the queue, so nothing marks it Panicked): '
+                               'the frame unwinds, the job stays on the queue and is run later against freed stack memory', loc=fn.loc(own[0]), fn=name))
+            else:
+                out.append(ok(R, key2, 'no panic site of the function\'s own between queueing the job and the "job done" edge (%d blocks)' % len(window), fn=name))
     # UnsafeJob: action dereferenced only in run; Drop does not touch it
     derefs = defaultdict(int)
     for fn in F.crate_fns():
